@@ -46,7 +46,8 @@ SCHEDS = [
 ]
 OPS = ["are_you_there", "request_svs", "request_sv", "list_svs", "request_ecs", "list_ecs", "set_ec", "set_ec",
        "list_alarms", "enable_alarm", "subscribe", "trigger", "trigger", "go_online", "go_offline", "remote_command",
-       "set_alarm", "clear_alarm", "operator", "cycle_host", "cycle_equipment", "cycle_mid_call"]
+       "set_alarm", "clear_alarm", "operator", "cycle_host", "cycle_equipment", "cycle_mid_call", "clear_events",
+       "subscribe"]
 
 
 def gen_plan(rng, tier, index):
@@ -295,6 +296,15 @@ def run(sim, plan):
                               f"link {None if link is None else (list(link.reports), link.enabled)}",
                               sig="C20.R2|subscribe-not-effective")
             subscribed[ceid] = rid
+        elif op == "clear_events":
+            api(op, host.clear_collection_events)
+            sim.probe("clear_events")
+            if eq.registered_reports or eq.registered_collection_events:
+                sim.violation("C20.R2", f"clear_collection_events completed but the equipment still holds reports "
+                              f"{sorted(map(str, eq.registered_reports))} / links "
+                              f"{[(c, list(l.reports)) for c, l in eq.registered_collection_events.items()]}",
+                              sig="C20.R2|clear-events-not-effective")
+            subscribed.clear()
         elif op == "trigger":
             if not subscribed:
                 continue
